@@ -59,6 +59,8 @@ def observe(scn: dict) -> dict:
     try:
         sm = to_symbolic_model(m)
         jac = sm.jacobian()
+    except TimeoutError:
+        raise      # the per-member alarm: the member is not judged (never a verdict about the library)
     except Exception as e:  # noqa: BLE001
         rec["convert_raised"] = f"{type(e).__name__}: {str(e)[:120]}"
         sm = None
@@ -72,6 +74,8 @@ def observe(scn: dict) -> dict:
             try:
                 eqs = [float(e.subs(subs)) for e in sm.eqs]
                 jv = [[float(jac[i, j].subs(subs)) for j in range(len(c["vars"]))] for i in range(len(c["vars"]))]
+            except TimeoutError:
+                raise      # the per-member alarm: the member is not judged (never a verdict about the library)
             except Exception as e:  # noqa: BLE001
                 rec["bad"] = {"what": "symbolic model cannot be evaluated", "exception": f"{type(e).__name__}: {str(e)[:120]}",
                               "point": p}
@@ -90,6 +94,8 @@ def observe(scn: dict) -> dict:
     try:
         sim = Simulator(m, use_jacobian=True, integrator=partial(Scipy, method="BDF"))
         jf = sim.integrator.jacobian
+    except TimeoutError:
+        raise      # the per-member alarm: the member is not judged (never a verdict about the library)
     except Exception as e:  # noqa: BLE001
         rec["bad"] = {"what": "Simulator(use_jacobian=True) raised", "exception": f"{type(e).__name__}: {str(e)[:120]}"}
         return rec
@@ -98,6 +104,8 @@ def observe(scn: dict) -> dict:
     else:
         try:
             jv = np.atleast_2d(np.array(jf(0.0, y0), dtype=float)).tolist()
+        except TimeoutError:
+            raise      # the per-member alarm: the member is not judged (never a verdict about the library)
         except Exception as e:  # noqa: BLE001
             rec["bad"] = {"what": "Jacobian closure raised", "exception": f"{type(e).__name__}: {str(e)[:120]}"}
             return rec
@@ -112,6 +120,8 @@ def observe(scn: dict) -> dict:
                 y0rev = {v: float(fn_to_dict(p0["y"])[v]) for v in reversed(list(c["vars"]))}
                 sim_r = Simulator(m, y0=y0rev, use_jacobian=True, integrator=partial(Scipy, method="BDF"))
                 jv = np.atleast_2d(np.array(sim_r.integrator.jacobian(0.0, y0), dtype=float)).tolist()
+            except TimeoutError:
+                raise      # the per-member alarm: the member is not judged (never a verdict about the library)
             except Exception as e:  # noqa: BLE001
                 rec["bad"] = {"what": "Jacobian closure raised with y0 in another key order", "exception": f"{type(e).__name__}: {str(e)[:120]}"}
                 return rec
@@ -127,6 +137,8 @@ def observe(scn: dict) -> dict:
             try:
                 sim.update_parameter("p", 5.0)
                 jv = np.atleast_2d(np.array(sim.integrator.jacobian(float(alt["t"]), ya), dtype=float)).tolist()
+            except TimeoutError:
+                raise      # the per-member alarm: the member is not judged (never a verdict about the library)
             except Exception as e:  # noqa: BLE001
                 rec["bad"] = {"what": "Jacobian closure raised after update_parameter", "exception": f"{type(e).__name__}: {str(e)[:120]}"}
                 return rec
@@ -151,6 +163,8 @@ def observe(scn: dict) -> dict:
                         r = Simulator(m, use_jacobian=uj, integrator=partial(Scipy, method=method)) \
                             .simulate_time_course(tp).get_result().unwrap_or_err().variables[list(c["vars"])].to_numpy()
                         out[uj] = r
+                    except TimeoutError:
+                        raise      # the per-member alarm: the member is not judged (never a verdict about the library)
                     except Exception as e:  # noqa: BLE001
                         out[uj] = f"{type(e).__name__}: {str(e)[:100]}"
                 if isinstance(out[False], str):
